@@ -1,12 +1,10 @@
 import CatiiProofs.IIndexShift
 import CatiiProofs.CubeDense
+import CatiiModel.Stack
 /-! One-axis `iindex` ↔ cube dimension (`Cube.Dim`): same dense column, well-formedness carries over.
 Core Lean only. -/
 namespace Catii.IIdx
 open Catii.Kern Catii.Cube
-
-/-- a one-axis index with non-negative categories, as the cube sees it -/
-def toDim (i : IIndex) : Dim := ⟨i.entries.map (fun e => ((val0 e.1).toNat, e.2)), i.common.toNat⟩
 
 structure CubeDimOK (N : Nat) (i : IIndex) : Prop where
   wf : WF i
